@@ -1,3 +1,58 @@
-(* placeholder until proofs are written *)
-From Coq Require Import List.
-From MV Require Import Model.ErrorPage.
+(* Props/C12.v — Error pages never reflect unescaped client input.
+   Text is a list of code points; `message` is arbitrary (any code points, any length). *)
+From Coq Require Import List Bool NArith String.
+From MV Require Import Base.Bytes Model.ErrorPage Proofs.ErrorPage.
+Import ListNotations.
+Local Open Scope N_scope.
+
+(* html.escape output contains none of the markup characters lt, gt, double quote, single quote,
+   whatever the message. *)
+Theorem C12_escape_no_markup : forall message : text,
+  forallb (fun d => negb (is_markup d)) (html_escape message) = true.
+Proof. exact escape_no_markup. Qed.
+Print Assumptions C12_escape_no_markup.
+
+(* ... and it is information preserving: every ampersand in it starts one of the five entity
+   references, and decoding them gives back exactly the message. *)
+Theorem C12_unescape_escape : forall (message : text) (fuel : nat),
+  (List.length message <= fuel)%nat -> unescape fuel (html_escape message) = message.
+Proof. exact unescape_escape. Qed.
+Print Assumptions C12_unescape_escape.
+
+(* The page produced by format_error (escape, template, textwrap.dedent, strip) is, up to
+   deleted spaces, tabs and newlines, the fixed template prefix, the escaped message, and the fixed
+   template suffix: dedent and strip never insert, reorder or delete anything but whitespace, so
+   every markup character of the page belongs to the template. *)
+Theorem C12_page_structure : forall (code : N) (reason message : text),
+  nonws (format_error_text code reason message)
+  = nonws (pre0 code reason) ++ nonws (html_escape message) ++ nonws post0
+  /\ forallb (fun d => negb (is_markup d)) (nonws (html_escape message)) = true.
+Proof. exact page_structure. Qed.
+Print Assumptions C12_page_structure.
+
+(* For HTTP/1 the error response is one complete, correctly framed response: an independent
+   minimal reader (status line, field lines, Content-Length body) reads exactly the page as body,
+   Content-Type text/html among the fields, and no bytes are left over. *)
+Theorem C12_error_response_framed : forall (code : N) (reason server_ver body : bytes),
+  no_cr reason -> no_cr server_ver ->
+  ref_read_response (make_error_response code reason server_ver body)
+  = Some (mkRef (blit "HTTP/1.1 " ++ dec_of_N code ++ [x20] ++ reason)
+                [blit "Server: " ++ server_ver; blit "Connection: close"; blit "Content-Type: text/html";
+                 blit "content-length: " ++ dec_of_N (N.of_nat (List.length body))]
+                body []).
+Proof. exact error_response_framed. Qed.
+Print Assumptions C12_error_response_framed.
+
+Theorem C12_nonvacuous :
+  format_error 400 (lit "Bad Request") (lit "<script>alert('x')</script> & more")
+  = blit "<html>
+<head>
+    <title>400 Bad Request</title>
+</head>
+<body>
+    <h1>400 Bad Request</h1>
+    <p>&lt;script&gt;alert(&#x27;x&#x27;)&lt;/script&gt; &amp; more</p>
+</body>
+</html>".
+Proof. vm_compute. reflexivity. Qed.
+Print Assumptions C12_nonvacuous.
